@@ -191,3 +191,15 @@ Theorem C11_containment_all_histories_partial : forall pl os D f,
   forall q, ~ is_prefix D q -> ~ is_prefix q D -> lookup (run_installs pl os f) q = lookup f q.
 Proof. exact installs_contained_partial. Qed.
 Print Assumptions C11_containment_all_histories_partial.
+
+(* "an excluded directory / file is never installed, whatever exists at the destination": planned_of contains,
+   for an install_subdir rule, only the entries of walk steps that are not below an excluded directory and the
+   files that are not excluded (Contain.excluded_entries_no_dests); for EVERY initial filesystem - the
+   destination directory may already exist through another rule, an earlier installation, or beforehand - a
+   location that is neither such a destination nor an ancestor of one is exactly as it was, for any outcome *)
+Theorem C11_excluded_never_installed_partial : forall o pl f f' lg r,
+  wf_plan o pl = true -> do_install o pl f = (f', lg, r) ->
+  forall q, ~ In q (planned_of o pl) -> (forall w, In w (planned_of o pl) -> ~ is_prefix q w) ->
+            lookup f' q = lookup f q.
+Proof. exact unplanned_untouched_partial. Qed.
+Print Assumptions C11_excluded_never_installed_partial.
